@@ -848,7 +848,14 @@ class HistoryWorld:
         if isinstance(ca, list) and isinstance(cb, list):
             sa, sb = sorted(repr(x) for x in ca), sorted(repr(x) for x in cb)
             if sa == sb:
-                return 'same segments, STRICT encodes them in another order than TOLERANT'
+                # the one documented difference: STRICT groups encode in structure order.  The finding
+                # only covers exactly that: STRICT == the TOLERANT twin's children stably sorted by
+                # their position in the structure tables (children the structure lacks last)
+                ec = a.meta[ri]['ec']
+                want = [EM.canon_seg(EM.seg_from_text(t, ec)) for t in self.structure_sorted_lines(b.roots[ri], a.meta[ri]['version'])]
+                if want == ca:
+                    return 'same segments; STRICT encodes in structure order, TOLERANT in insertion order'
+                return 'same segments, but STRICT order is neither insertion nor structure order'
             if set(sa) < set(sb):
                 missing = [x for x in cb if repr(x) not in set(sa)]
                 names = sorted({m[0] for m in missing})
@@ -856,6 +863,25 @@ class HistoryWorld:
                     return 'STRICT encoding omits an accepted Z segment'
                 return 'STRICT encoding omits an accepted segment'
         return 'STRICT and TOLERANT twins encode differently'
+
+    def structure_sorted_lines(self, e, version):
+        ref = None
+        if e.classname == 'Message':
+            ref = T.messages(version).get(e.name)
+        elif e.classname == 'Group':
+            ref = T.groups(version).get(e.name)
+        names = [c[0] for c in T.children(ref)] if ref is not None and len(ref) > 1 and ref[1] else []
+        pos = {n: i for i, n in enumerate(names)}
+        kids = sorted(e.children.list, key=lambda c: pos.get(c.name, len(names)))
+        out = []
+        for c in kids:
+            if c.classname == 'Segment':
+                t = c.to_er7()
+                if t.strip():
+                    out.append(t)
+            else:
+                out.extend(self.structure_sorted_lines(c, version))
+        return out
 
     def check_strict_leaves(self, a, ri, step):
         """Every leaf of the STRICT twin holds a value object of the class its datatype names,
